@@ -107,6 +107,9 @@ def deref_shapes():
         src = """    #[kani::proof]
     fn forwarded_deref_is_what_the_field_derefs_to() {
         let mut s = %(ctor)s;
+        // `Target` must be the field's own target: without this a non-forwarded `&Inner` would silently deref-coerce to `&[u8; 3]` below
+        fn target_is<T: Deref<Target = U>, U: ?Sized>(_: &T) {}
+        target_is::<S, [u8; 3]>(&s);
         let got: &[u8; 3] = &*s;
         assert!(ptr::eq(got, <Inner as Deref>::deref(&s.%(f)s)), "forwarded Deref is not the field's own Deref result");
         assert!(ptr::eq(got, &s.%(f)s.items));
